@@ -22,7 +22,7 @@ TResid == /\ Ev.e = "Resid"
 
 (* C02 *)
 TInv == /\ Ev.e = "Inv"
-        /\ IF Ev.api \in {"irfft_full", "irfft_half", "irfft_auto"} /\ Ev.n % 2 = 1
+        /\ IF Ev.api \in {"irfft_full", "irfft_half", "irfft_auto", "irfft_odd"} /\ Ev.n % 2 = 1
            THEN Ev.o = "throw"                                  \* odd n is rejected with an exception
            ELSE /\ Ev.o = "ret" /\ Ev.outlen = Ev.n /\ Ev.finite = TRUE
                 /\ Ev.err_milli <= 1000
